@@ -3,7 +3,9 @@
 
 `save_model` writes the cache with `open(db_file, "wb")` + `pickle.dump`: `open` truncates
 the file, every writer has its own file offset (no `O_APPEND`), `pickle.dump` issues one or
-more `write` calls, each of which may reach the disk in pieces.  A call first loads
+more `write` calls, each of which may reach the disk in pieces.  A variant writes to a private
+temporary file and renames it over the cache file (`Act.replace`): readers see the old or the new
+complete file.  A call first loads
 (`load_model`), and only a call whose load failed compiles and writes.  Both calls compile the
 same sources with the same options, so both write the same byte string `B` (`N` bytes).
 
@@ -31,6 +33,9 @@ def File.isAll (f : File) (B : Nat → Nat) (N : Nat) : Bool :=
 def File.isPrefix (f : File) (B : Nat → Nat) (p : Nat) : Bool :=
   f.len == p && (List.range p).all (fun j => f.byte j == B j)
 
+/-- the complete file -/
+def File.full (B : Nat → Nat) (N : Nat) : File := ⟨N, B⟩
+
 def File.bytes (f : File) : List Nat := (List.range f.len).map f.byte
 
 /-- Progress of one `transfer_model` call. -/
@@ -55,6 +60,9 @@ inductive Act
   | openW (i : Bool)
   | write (i : Bool) (n : Nat)
   | close (i : Bool)
+  /-- atomic installation: the call wrote all of `B` to a private temporary file (invisible to
+      readers) and renames it over the cache file (`os.replace`) -/
+  | replace (i : Bool)
   deriving DecidableEq, Repr
 
 def setPh (ph : Bool → Phase) (i : Bool) (p : Phase) : Bool → Phase :=
@@ -84,6 +92,10 @@ def step (B : Nat → Nat) (N : Nat) (valid : File → Bool) (s : Sys) : Act →
   | .close i =>
     match s.ph i with
     | .writing pos => if pos = N then some { s with ph := setPh s.ph i (.done false) } else none
+    | _ => none
+  | .replace i =>
+    match s.ph i with
+    | .missed => some { file := some (File.full B N), ph := setPh s.ph i (.done false), last := some i }
     | _ => none
 
 def runActs (B : Nat → Nat) (N : Nat) (valid : File → Bool) : Sys → List Act → Option Sys
